@@ -55,14 +55,15 @@ func init() {
 }
 
 type c07Schema struct {
-	tb    *Table // scalar columns of t: k (int), s (str), v (num)
-	k     string
-	s     string
-	v     string
-	items string
-	p     string // int column of the nested elements
-	q     string // str column of the nested elements
-	t2c   string
+	tb     *Table // scalar columns of t: k (int), s (str), v (num)
+	k      string
+	s      string
+	v      string
+	items  string
+	p      string // int column of the nested elements
+	q      string // str column of the nested elements
+	t2c    string
+	hetero bool // nested elements may lack p or q
 }
 
 func genC07Doc(t *rapid.T) (map[string]any, *c07Schema) {
@@ -74,6 +75,8 @@ func genC07Doc(t *rapid.T) (map[string]any, *c07Schema) {
 	ppool := []any{1.0, 2.0, 3.0, 5.0}
 	sc.tb = &Table{Cols: []Col{{Name: sc.k, Kind: "int", Pool: kpool}, {Name: sc.s, Kind: "str", Pool: spool}, {Name: sc.v, Kind: "num", Pool: vpool}}}
 	n := rapid.IntRange(0, 6).Draw(t, "nrows")
+	hetero := rapid.IntRange(0, 2).Draw(t, "hetero-items") == 0
+	sc.hetero = hetero
 	rows := []any{}
 	for r := 0; r < n; r++ {
 		row := map[string]any{
@@ -84,10 +87,20 @@ func genC07Doc(t *rapid.T) (map[string]any, *c07Schema) {
 		ni := rapid.IntRange(0, 3).Draw(t, fmt.Sprintf("r%d.nitems", r))
 		items := []any{}
 		for i := 0; i < ni; i++ {
-			items = append(items, map[string]any{
+			el := map[string]any{
 				sc.p: rapid.SampledFrom(ppool).Draw(t, fmt.Sprintf("r%d.i%d.p", r, i)),
 				sc.q: rapid.SampledFrom(spool).Draw(t, fmt.Sprintf("r%d.i%d.q", r, i)),
-			})
+			}
+			if hetero {
+				// elements of one array need not have the same keys: an absent key is NULL for that element
+				switch rapid.IntRange(0, 5).Draw(t, fmt.Sprintf("r%d.i%d.drop", r, i)) {
+				case 0:
+					delete(el, sc.p)
+				case 1:
+					delete(el, sc.q)
+				}
+			}
+			items = append(items, el)
 		}
 		row[sc.items] = items
 		rows = append(rows, row)
@@ -319,7 +332,7 @@ func genC07(t *rapid.T) any {
 		}
 	case "exists":
 		// predicate over element columns p,q and outer columns k,s,v (names disjoint)
-		tb := &Table{Cols: []Col{{Name: sc.p, Kind: "int", Pool: []any{1.0, 2.0, 3.0, 5.0}}, {Name: sc.q, Kind: "str", Pool: []any{"a", "b", "ab"}}}}
+		tb := &Table{Cols: []Col{{Name: sc.p, Kind: "int", Pool: []any{1.0, 2.0, 3.0, 5.0}, Nullable: sc.hetero}, {Name: sc.q, Kind: "str", Pool: []any{"a", "b", "ab"}, Nullable: sc.hetero}}}
 		tb.Cols = append(tb.Cols, sc.tb.Cols...)
 		c.ExPred = genPred(t, tb, &PredSpec{Core: true}, rapid.IntRange(0, 2).Draw(t, "exdepth"), "ex")
 		c.Not = rapid.IntRange(0, 2).Draw(t, "not") == 0
